@@ -53,7 +53,7 @@ theorem diagExt_ok {R : Type} : ExtOk (diagExt : Ext R) := by
     | nil => exact absurd rfl hne
     | cons r rs => exact h r (by simp)
   constructor
-  · intro M k h
+  · intro M k h _
     by_cases hM : M = []
     · subst hM
       exact ⟨⟨by simp [diagExt], by simp [diagExt], by simp [diagExt]⟩, by simp [diagExt]⟩
@@ -76,21 +76,55 @@ theorem diagExt_ok {R : Type} : ExtOk (diagExt : Ext R) := by
       · rintro ⟨i, hi, j, hj, rfl⟩; exact ⟨hi, hj⟩
       · intro ⟨h1, h2⟩; exact ⟨e.1, h1, e.2, h2, rfl⟩
 
-/-- the repaired `assign_tracks` never raises, whatever the none-pattern of the cost matrix -/
+/-- the repaired `assign_tracks` never raises on the cost matrices of the model: `+∞` (NaN score)
+    fills whole columns (`ColPattern`: stale tracks).  Outside that pattern — a NaN score of a single
+    detection — neither the model nor the theorem speaks; see `nan_row_model_divergence` and F-C09d. -/
 theorem assignStage_total {R : Type} {ext : Ext R} (hext : ExtOk ext) (mt : Matcher) (m : Nat)
-    (cost : List (List (Option R))) :
+    (cost : List (List (Option R))) (hcp : ColPattern cost) :
     ∃ ms, assignStage Fixes.repaired mt ext m cost = .ok ms :=
-  let ⟨ms, h, _⟩ := assignStage_repaired hext Fixes.repaired rfl mt m cost
+  let ⟨ms, h, _⟩ := assignStage_repaired hext Fixes.repaired rfl mt m cost hcp
   ⟨ms, h⟩
 
 /-- … and what it returns is one-to-one on rows and on track ids, within bounds -/
 theorem assignStage_valid {R : Type} {ext : Ext R} (hext : ExtOk ext) (mt : Matcher) (m : Nat)
-    (cost : List (List (Option R))) (ms : List (Nat × Nat))
+    (cost : List (List (Option R))) (hcp : ColPattern cost) (ms : List (Nat × Nat))
     (h : assignStage Fixes.repaired mt ext m cost = .ok ms) : MatchValid cost.length m ms := by
-  obtain ⟨ms', h', hv, _⟩ := assignStage_repaired hext Fixes.repaired rfl mt m cost
+  obtain ⟨ms', h', hv, _⟩ := assignStage_repaired hext Fixes.repaired rfl mt m cost hcp
   rw [h] at h'
   cases h'
   exact hv
+
+/-- the model's cost matrices do have the column pattern -/
+theorem model_cost_colPattern {R φ : Type} [Add R] [Div R] [OfNat R 0] [NatCast R] [LT R]
+    [DecidableLT R] [Neg R] (rd : Reduction) (score : φ → φ → R) (cands : Nat → List φ) (m : Nat)
+    (cur : List φ) : ColPattern (toCost (scoreMatrixP rd score cands m cur)) :=
+  colPattern_scoreMatrix rd score cands m cur
+
+/-- **limit of the model** (audit): on a scattered `+∞` pattern — a detection whose scores are all
+    NaN — the model's feasibility *count* says "feasible" and returns an assignment, whereas scipy
+    raises `cost matrix is infeasible` on this matrix (replayed by the harness, F-C09d).  The model
+    is valid on `ColPattern` matrices only. -/
+theorem nan_row_model_divergence :
+    assignStage Fixes.repaired .hungarian (diagExt : Ext Int) 2 [[some 1, some 2], [none, none]]
+      = .ok [(0, 0), (1, 1)] ∧ ¬ ColPattern ([[some 1, some 2], [none, none]] : List (List (Option Int))) := by
+  refine ⟨by decide, ?_⟩
+  intro h
+  rcases h 0 with h0 | h0
+  · have := h0 [none, none] (by simp); simp at this
+  · have := h0 [some 1, some 2] (by simp); simp at this
+
+/-- **F-C09d at model level**: a tracked animal whose stored feature is NaN (its score column is
+    `none`) — the only column is invalid, nothing is matched, the guard is false, `add_new_tracks` is
+    never reached: the detection comes back without a track although its score exceeds the threshold. -/
+theorem nan_track_counterexample :
+    let s : FW Nat := ⟨[⟨[7], [some 0]⟩], [0]⟩
+    FW.stepWith (⟨3, 0, .hungarian, .mean, Fixes.repaired⟩ : Config Int) (diagExt : Ext Int) s [(8, 1)] [[none]]
+        = .ok (s, [none]) ∧
+      ¬ FrameOk (0 : Int) [((8 : Nat), (1 : Int))] [none] := by
+  refine ⟨by decide, ?_⟩
+  intro h
+  obtain ⟨t, ht⟩ := h.complete 0 (by simp) (by decide)
+  simp at ht
 
 /-- `add_new_tracks` on `current_tracks = [0..m)`: matched ids are kept, every unmatched detection
     above the threshold gets a fresh id `≥ m`, ids stay distinct, `current_tracks` stays a range -/
